@@ -57,4 +57,5 @@ props! {
     "X05" => x05,
     "X02" => x02,
     "X08" => x08,
+    "X06" => x06,
 }
